@@ -338,6 +338,28 @@ func c16Finalise(c *fw.Ctx, i int) {
 			}
 		}
 
+		// … and an RTSP player whose DESCRIBE arrives in the gap: lal holds it until the stream has a
+		// description, which must then be the successor's
+		var gapRtsp *ref.RtspClient
+		var gapSdp ref.Sdp
+		var gapErr error
+		gapDone := make(chan struct{})
+		if cyc > 0 {
+			if rc, err := ref.DialRtsp(s.RtspAddr(), 3*time.Second); err == nil {
+				gapRtsp = rc
+				go func() {
+					defer close(gapDone)
+					gapSdp, gapErr = rc.Play("rtsp://"+s.RtspAddr()+"/live/"+name, false, 6*time.Second)
+				}()
+				time.Sleep(40 * time.Millisecond)
+			}
+		}
+		defer func() {
+			if gapRtsp != nil {
+				gapRtsp.Close()
+			}
+		}()
+
 		from := s.Notify.Len()
 		nStubBefore := len(stub.Snapshot())
 		pub, err := ref.StartRtmpPublisher(s.RtmpAddr(), "live", name, 5*time.Second)
@@ -401,6 +423,34 @@ func c16Finalise(c *fw.Ctx, i int) {
 			c.Violate("stalled", "lal did not process all published messages within 10 s | "+desc, nil)
 			pub.Close()
 			return
+		}
+		if gapRtsp != nil {
+			select {
+			case <-gapDone:
+				if gapErr == nil {
+					foreign, own := 0, 0
+					for _, t := range gen.FindTags([]byte(sdpParamBytes(gapSdp))) {
+						if t.Inc == inc {
+							own++
+						} else {
+							foreign++
+						}
+					}
+					hasVideo := false
+					for _, m := range gapSdp.Media {
+						if m.Kind == "video" {
+							hasVideo = true
+						}
+					}
+					c.Count("gap_rtsp_descriptions_judged", 1)
+					if foreign > 0 || (hasVideo && codec[0] == "") {
+						c.Violate("leak/gap-joiner-rtsp-sdp", fmt.Sprintf("an RTSP player whose DESCRIBE arrived while the name had no input was described a predecessor's stream (parameter-set tags: %d of other incarnations, %d of incarnation %d; video section=%v, this incarnation's codecs %v) | %s", foreign, own, inc, hasVideo, codec, desc), nil)
+					}
+				}
+			default:
+				// still pending (this incarnation never produced a description) - nothing to judge
+			}
+			gapRtsp.Close()
 		}
 		// ---- end the input
 		t0 := time.Now()
@@ -672,6 +722,22 @@ func c16FinaliseRtsp(c *fw.Ctx, i int) {
 		desc := fmt.Sprintf("rtsp ingest udp=%v cycle %d/%d inc=%d codec=%v end@%d/%d packets way=%s", udp, cyc+1, K, inc, codec, n, len(pkts), way)
 		c.Describe("%s", desc)
 		c.Cell("rtsp-ingest/%s/udp=%v/%s+%s", way, udp, codec[0], codec[1])
+		// an RTSP player whose DESCRIBE arrives while the name has no input: it is answered once there
+		// is a description, and that is the next publisher's (an RTSP publisher hands lal its SDP as it is)
+		var gapRtsp *ref.RtspClient
+		var gapSdp ref.Sdp
+		var gapErr error
+		gapDone := make(chan struct{})
+		if cyc > 0 {
+			if g, err := ref.DialRtsp(s.RtspAddr(), 3*time.Second); err == nil {
+				gapRtsp = g
+				go func() {
+					defer close(gapDone)
+					gapSdp, gapErr = g.Play("rtsp://"+s.RtspAddr()+"/live/"+name, false, 6*time.Second)
+				}()
+				time.Sleep(40 * time.Millisecond)
+			}
+		}
 		from := s.Notify.Len()
 		nStubBefore := len(stub.Snapshot())
 		rc, err := ref.DialRtsp(s.RtspAddr(), 5*time.Second)
@@ -715,6 +781,33 @@ func c16FinaliseRtsp(c *fw.Ctx, i int) {
 			}
 		}
 		time.Sleep(150 * time.Millisecond)
+		if gapRtsp != nil {
+			select {
+			case <-gapDone:
+				if gapErr == nil {
+					foreign, own := 0, 0
+					for _, t := range gen.FindTags([]byte(sdpParamBytes(gapSdp))) {
+						if t.Inc == inc {
+							own++
+						} else {
+							foreign++
+						}
+					}
+					hasVideo := false
+					for _, m := range gapSdp.Media {
+						if m.Kind == "video" {
+							hasVideo = true
+						}
+					}
+					c.Count("gap_rtsp_descriptions_judged", 1)
+					if foreign > 0 || (hasVideo && codec[0] == "") {
+						c.Violate("leak/gap-joiner-rtsp-sdp", fmt.Sprintf("an RTSP player whose DESCRIBE arrived while the name had no input was described a predecessor's stream (parameter-set tags: %d of other incarnations, %d of incarnation %d; video section=%v, this incarnation's codecs %v) | %s", foreign, own, inc, hasVideo, codec, desc), nil)
+					}
+				}
+			default:
+			}
+			gapRtsp.Close()
+		}
 		t0 := time.Now()
 		switch way {
 		case "close":
@@ -1675,7 +1768,7 @@ func init() {
 		},
 		Setup:       c16Setup,
 		CaseTimeout: func(string) time.Duration { return 4 * time.Minute },
-		Rule:        "whole-server runs with HLS (disk), FLV and TS recorders, relay push to a stub target, the stream hook and RTMP/FLV/TS consumers. Finalise scenarios (3 of 5 cases with an RTMP publisher; 1 of 5 with an RTSP publisher over interleaved TCP or UDP ended by close / kick / silence / TEARDOWN, outputs checked structurally): 3–5 incarnations of one stream name with changing codec pairs (AVC/HEVC/enhanced HEVC/none × AAC/none); each incarnation is cut at a seeded instant (nothing sent, headers only, right after a key frame, after an audio frame with batched audio pending, a few messages after mid-GOP joiners attached, mid-stream, complete) by close / API kick / going silent (check interval 2 s; in half of these after having trickled its last messages over 4.8 s, i.e. after being found alive by at least two checks) / server Dispose. Observed right after each end: stream-hook OnStop calls = 1 and OnMsg calls = messages published; push target connection closed; exactly one FLV and one TS recording, FLV parses to EOF and equals the published audio/video messages, TS passes the C06 frame oracle to the last video and audio frame (flush); live and record playlists parse, one ENDLIST, every segment file listed and present, segments pass the frame oracle to the last frame; idle publisher gets pub_stop ≤ 2·interval+3 s+2 s and its socket closes; joiners of an incarnation see only its tags; players that join while the name has no input see only the next incarnation's tags and do receive its frames; long-lived consumers never see an older incarnation after a newer one, and the long-lived HTTP-TS consumer sees each incarnation's frames under a PMT that declares that incarnation's codecs; stat codec fields equal the current input's; the group leaves /api/stat/all_group ≤ 8 s after the last session. Re-publish scenarios (1 of 10): cleanup_mode 1/2 with a 1.5 s delayed directory cleanup, a second publisher of the name arriving at once and staying live across the first one's cleanup timer — live playlist and listed segments must be on disk while it is live and finalised when it ends, directory removed after the last end. RTSP-pull scenarios (4 extra cases, thorough 20): lal relay-pulls a stream from its own RTSP server (TCP/UDP) into another name; the pull ends by stop_relay_pull / kick / end of the origin stream — relay_pull_stop ≤ 6 s, hook OnStop exactly once, ENDLIST in the pulled stream's playlist, group removed ≤ 8 s, a publisher of the name admitted. Late-push scenarios (4 extra cases, thorough 20): the push target withholds its answer to `publish` until the publisher has left by close or kick (and, alternately, answers in time) — its connection must be closed within 4 s either way. Pull-dispose scenarios (4 extra cases, thorough 20): the input is a relay pull (attached, or its attempt held in flight by the origin) and the server is shut down — the origin connection must be closed within 4 s. Resource scenarios (1 of 5): 3 warm-up cycles, baseline goroutines and /proc/self/fd with no session left, 6 (thorough 12) cycles with RTMP/FLV/TS/RTSP-TCP/RTSP-UDP consumers, abandoned RTSP DESCRIBE/SETUP, aborted RTMP handshakes, HLS and API requests, ends by close/kick/consumers-first; growth ≥ 1 per 2 cycles is a leak. cell = end way × end instant × codec pair. Mid-GOP RTMP / HTTP-FLV / HTTP-TS joiners of an incarnation that ends before its next key frame (GOP caches off in those cases) stay attached: the successor - audio only in every eighth case - must serve them (carried-joiner-starved).",
+		Rule:        "whole-server runs with HLS (disk), FLV and TS recorders, relay push to a stub target, the stream hook and RTMP/FLV/TS consumers. Finalise scenarios (3 of 5 cases with an RTMP publisher; 1 of 5 with an RTSP publisher over interleaved TCP or UDP ended by close / kick / silence / TEARDOWN, outputs checked structurally): 3–5 incarnations of one stream name with changing codec pairs (AVC/HEVC/enhanced HEVC/none × AAC/none); each incarnation is cut at a seeded instant (nothing sent, headers only, right after a key frame, after an audio frame with batched audio pending, a few messages after mid-GOP joiners attached, mid-stream, complete) by close / API kick / going silent (check interval 2 s; in half of these after having trickled its last messages over 4.8 s, i.e. after being found alive by at least two checks) / server Dispose. Observed right after each end: stream-hook OnStop calls = 1 and OnMsg calls = messages published; push target connection closed; exactly one FLV and one TS recording, FLV parses to EOF and equals the published audio/video messages, TS passes the C06 frame oracle to the last video and audio frame (flush); live and record playlists parse, one ENDLIST, every segment file listed and present, segments pass the frame oracle to the last frame; idle publisher gets pub_stop ≤ 2·interval+3 s+2 s and its socket closes; joiners of an incarnation see only its tags; players that join while the name has no input see only the next incarnation's tags and do receive its frames; long-lived consumers never see an older incarnation after a newer one, and the long-lived HTTP-TS consumer sees each incarnation's frames under a PMT that declares that incarnation's codecs; stat codec fields equal the current input's; the group leaves /api/stat/all_group ≤ 8 s after the last session. Re-publish scenarios (1 of 10): cleanup_mode 1/2 with a 1.5 s delayed directory cleanup, a second publisher of the name arriving at once and staying live across the first one's cleanup timer — live playlist and listed segments must be on disk while it is live and finalised when it ends, directory removed after the last end. RTSP-pull scenarios (4 extra cases, thorough 20): lal relay-pulls a stream from its own RTSP server (TCP/UDP) into another name; the pull ends by stop_relay_pull / kick / end of the origin stream — relay_pull_stop ≤ 6 s, hook OnStop exactly once, ENDLIST in the pulled stream's playlist, group removed ≤ 8 s, a publisher of the name admitted. Late-push scenarios (4 extra cases, thorough 20): the push target withholds its answer to `publish` until the publisher has left by close or kick (and, alternately, answers in time) — its connection must be closed within 4 s either way. Pull-dispose scenarios (4 extra cases, thorough 20): the input is a relay pull (attached, or its attempt held in flight by the origin) and the server is shut down — the origin connection must be closed within 4 s. Resource scenarios (1 of 5): 3 warm-up cycles, baseline goroutines and /proc/self/fd with no session left, 6 (thorough 12) cycles with RTMP/FLV/TS/RTSP-TCP/RTSP-UDP consumers, abandoned RTSP DESCRIBE/SETUP, aborted RTMP handshakes, HLS and API requests, ends by close/kick/consumers-first; growth ≥ 1 per 2 cycles is a leak. cell = end way × end instant × codec pair. Mid-GOP RTMP / HTTP-FLV / HTTP-TS joiners of an incarnation that ends before its next key frame (GOP caches off in those cases) stay attached: the successor - audio only in every eighth case - must serve them (carried-joiner-starved). An RTSP player whose DESCRIBE arrives between two publishers (RTMP or RTSP) is described the successor's stream, never a predecessor's.",
 		Assumptions: []string{"recording and HLS files of one incarnation are inspected and then removed by the harness before the next incarnation starts (lal names recordings by second, so back-to-back incarnations would otherwise share a file name)", "goroutine and descriptor counts include the harness's own; every harness connection is closed before counting and only growth proportional to the number of cycles is judged"},
 		MinCells:    10,
 		Run: func(c *fw.Ctx, i int) {
